@@ -196,3 +196,14 @@ def trace_alphabet():
             a.append(T(s, d, q))
     return a
 
+
+
+# ---- the same number and prefix in another base unit ('5 uL', '5 ug', '5 umol'), through every pairing form, one after the other ------
+def same_number_alphabet():
+    """What a request means does not depend on the requests made before it: histories of two of these are explored."""
+    a = []
+    for s_, d_ in ((['P', "(slice(None), 1)"], ['Q', "(slice(None), 2)"]), ('A', 'B'), ('A', ['Q', "(1, slice(None))"]),
+                   (['P', "(1, slice(None))"], 'E'), (['P', "(1, 1)"], ['Q', "(slice(None), 1)"])):
+        for q in ('5 uL', '5 ug', '5 umol'):
+            a.append(T(s_, d_, q))
+    return a
